@@ -13,6 +13,9 @@ Sanitizer territory as a whole.  Decided here only where the shape of the code s
    written (C02.3 rule)
 Out-of-bounds, overflow, invalid shifts and assertion failures on arbitrary inputs are NOT decided.
 """
+import os
+import re
+
 import tbf
 import omp
 import effects
@@ -245,6 +248,109 @@ def memoryblock_typestate(facts, res):
                 res.violation(R, f, m["qname"], "ctor-owns@%d" % m["l"][1], m["l"][1], "a constructor that does not allocate initialises objectOwnData to '%s'" % val)
 
 
+# --------------------------------------------------------------------------- C15.4 shift width
+
+# code that exists only for three dimensions: a level is at most 21 there (3 * level <= 63), far below 31
+THREE_D_ONLY = {"src/kernels/rotationkernel/": "FRotationKernel static_asserts Dim == 3",
+                "src/kernels/unifkernel/": "the uniform kernel's tensors, M2L tables and interpolators are written for 3 dimensions",
+                "src/kernels/P2P/": "x,y,z routines"}
+NARROW = re.compile(r"^(const )?(unsigned |signed )?(int|short|char|bool|unsigned|short int)$")
+
+
+def _runtime_amount(m, n):
+    """why the shift amount is a run-time quantity (None when it is fixed at compile time or bounded by a
+    loop whose bounds are): parameters, members, calls and non-constant locals are run-time"""
+    for x in walk(n):
+        k = x.get("k")
+        if k in ("MemberExpr", "CXXDependentScopeMemberExpr", "CallExpr", "CXXMemberCallExpr", "CXXThisExpr"):
+            return m.facts.ntext(x)[:40]
+        if k == "DeclRefExpr" and x.get("dk") in ("Var", "ParmVar"):
+            did = x.get("did")
+            if x.get("staticmember") and (x.get("t") or "").startswith("const "):
+                continue      # static const integral member: a constant expression
+            if x.get("dk") == "ParmVar":
+                return x.get("name")
+            if did in m.loop_vars:
+                f = m.loop_vars[did]
+                bound = [y for y in (kids(f)[1:2] or [])]
+                d = m.decls.get(did)
+                parts = (kids(d) if d is not None else []) + bound
+                inner = None
+                for p in parts:
+                    for y in walk(p):
+                        if y.get("k") == "DeclRefExpr" and y.get("did") == did:
+                            continue
+                        if y.get("k") in ("MemberExpr", "CXXDependentScopeMemberExpr", "CallExpr", "CXXMemberCallExpr") or \
+                                (y.get("k") == "DeclRefExpr" and y.get("dk") in ("Var", "ParmVar") and not (m.decls.get(y.get("did")) or {}).get("constexpr")):
+                            inner = m.facts.ntext(y)[:40]
+                if inner:
+                    return "%s (loop bounded by %s)" % (x.get("name"), inner)
+                continue
+            d = m.decls.get(did)
+            if d is not None and d.get("constexpr"):
+                continue
+            if d is not None and kids(d) and "const" in d.get("t", ""):
+                r = _runtime_amount(m, kids(d)[0])
+                if r is None:
+                    continue
+                return r
+            return x.get("name")
+    return None
+
+
+def shift_width(facts, res, R="C15.4.shift-width", roots_only=False):
+    """A tree level is valid up to 63/Dim (Dim 1: 63, Dim 2: 31), a tree height up to one more, and the number of
+    periodic levels above the root is a free run-time argument.  `a << n` is evaluated in the promoted type of a:
+    when that type has 32 bits and n is a run-time quantity the shift overflows (n == 31) or is undefined (n >= 32)
+    on valid deep trees.  Reported: every such shift outside the 3-D-only kernels."""
+    import stages
+    n_seen = n_wide = hits = 0
+    for fn in facts.functions:
+        if fn.get("inst"):
+            continue
+        path = tbf.rel(facts.path_of(fn)) if fn.get("l") else "?"
+        if not roots_only and not path.startswith("src/"):
+            continue
+        skip = [why for d, why in THREE_D_ONLY.items() if path.startswith(d)]
+        roots = [tbf.body(fn)] + [c for i in fn.get("inits", []) for c in i.get("c", [])]
+        shifts = []
+        for r in roots:
+            if r is None:
+                continue
+            for x in walk(r):
+                if x.get("k") in ("BinaryOperator", "CompoundAssignOperator") and x.get("op") in ("<<", "<<="):
+                    shifts.append(x)
+        if not shifts:
+            continue
+        m = None
+        for x in shifts:
+            a, b = kids(x)
+            lt = (a.get("t") or "").strip()
+            if lt in ("<dependent type>", "") or not re.match(r"^(const )?(unsigned |signed )?(int|short|char|bool|unsigned|short int|long|long int|long long|unsigned long|long unsigned int|IndexType)\b", lt):
+                continue    # stream insertion / dependent operand
+            n_seen += 1
+            if not NARROW.match(lt):
+                n_wide += 1
+                continue
+            if m is None:
+                if tbf.body(fn) is not None:
+                    m = stages.FnModel(facts, fn)
+                else:
+                    continue
+            why = _runtime_amount(m, b)
+            if why is None:
+                continue
+            key = "%s:%s" % (fn["name"], facts.ntext(x))
+            if skip:
+                res.instance(R, key, facts.loc(x), "32-bit shift by a run-time amount in 3-D-only code (%s): level <= 21" % skip[0], nontrivial=False)
+                continue
+            hits += 1
+            res.violation(R, path, fn["qname"], key, x["l"][1],
+                          "`%s` is evaluated in the 32-bit type '%s' but the amount depends on the run-time quantity `%s`: tree levels up to 63/Dim are valid "
+                          "(Dim 1: 63, Dim 2: 31), so the shift overflows or is undefined on a valid deep tree; shift a 64-bit value" % (facts.ntext(x), lt, why))
+    return n_seen, n_wide, hits
+
+
 def run(res, tier):
     facts = tbf.scan("core")
     res.units.append("umbrella TU 'core': OpenMP executors (CreateNew), rotation/uniform kernels + TbfPeriodicShifter, TbfMemoryBlock, wrapper/top-tree fill idioms")
@@ -273,6 +379,17 @@ def run(res, tier):
         for i in res.instances:
             if i["rule"].startswith("C03.d"):
                 i["rule"] = i["rule"].replace("C03.d", "C15.3")
+    res.rule("C15.4 shift width: outside the 3-D-only kernels no left shift whose amount is a run-time level / height / count is evaluated in a 32-bit type (levels up to 63/Dim are valid)")
+    seen, wide, _h = shift_width(facts, res)
+    res.instance("C15.4.shift-width", "integer left shifts in src/", "umbrella 'core'", "%d integer shifts examined, %d already 64-bit" % (seen, wide))
+    res.floor("C15.4.shift-width", seen, 30, "integer left shifts")
+    fx = os.path.join(tbf.VERIF, "fixtures", "c15_int_shift.cpp")
+    ff = tbf.scan_file(fx, [], [os.path.join(tbf.VERIF, "fixtures") + os.sep])
+    ctl = tbf.Result("control")
+    _s, _w, h = shift_width(ff, ctl, roots_only=True)
+    if h != 2 or _s != 5:
+        raise AnalysisBroken("positive control fixtures/c15_int_shift.cpp: %d of 2 narrow run-time shifts reported (%d of 5 shifts seen)" % (h, _s))
+    res.instance("C15.4.shift-width", "positive control", "verif:fixtures/c15_int_shift.cpp", "2 of 2 seeded constructs reported, 3 of 3 harmless ones silent")
     cmap = effects.container_map(facts)
     for fn, sr, call, op, slots in coherence.wrapper_kernel_calls(facts, cmap):
         c02.fill_idiom(facts, fn, sr, call, op, slots, res, R="C15.3.array-fill")
